@@ -176,6 +176,44 @@ def run(rep):
         if ok and any(C.norm(a) != C.norm(ok[0][1]) for s, a in rows if s >= ok[0][0]):
             rep.violation('c10mono:' + G.to_jsonnet(progs[i]), 'raising the limit changed a successful outcome',
                           {'src': G.to_jsonnet(progs[i]), 'rows': [[s, a[:80]] for s, a in rows]})
+    # endless structures handed to every builtin: each call must be answered (a value or an error), never loop forever
+    listing = vlib.impl([vlib.eval_line('[[f, std.length(std[f])] for f in std.objectFieldsAll(std) if std.isFunction(std[f])]')])[0]
+    try:
+        import json as _json
+        members = _json.loads(vlib.unhx(listing.split(' ')[1]).decode('utf-8'))
+    except Exception:
+        members = []
+        rep.broken_tie('cannot list the functions of std', listing[:200])
+    INF = ['{x: self}', 'local a = [a]; a', '{x: [self]}', 'local f(n) = [f(n + 1)]; f(0)', 'local f(n) = {a: f(n + 1)}; f(0)']
+    OTHER = ['function(x) x', '"x"', '1', '[]', '{}', 'function(a, b) a', 'true', '" "', '2']
+    calls = []
+    for name, ar in members:
+        for pos in range(int(ar)):
+            for inf in (rng.sample(INF, 1) if quick else INF):
+                args = [rng.choice(OTHER) for _ in range(int(ar))]
+                args[pos] = inf
+                calls.append('std.%s(%s)' % (name, ', '.join(args)))
+    if quick:
+        calls = rng.sample(calls, min(len(calls), 260))
+    calls += ['std.prune({x: self})', 'std.deepJoin(local a = [a]; a)', 'std.flattenDeepArray(local a = [a]; a)',
+              'std.mergePatch("x", {x: self})', 'std.manifestJsonEx({x: self}, " ")', 'std.toString(local a = [a]; a)',
+              '{x: self} == {x: self}', 'local a = [a]; a < a', 'std.manifestYamlDoc({x: self})', 'std.manifestTomlEx({x: self}, " ")',
+              'std.manifestPython({x: self})', 'std.manifestXmlJsonml(local a = ["a", a]; a)', 'std.manifestIni({sections: {x: self}})']
+    for i in range(0, len(calls), 40):
+        chunk = calls[i:i + 40]
+        outs = vlib.impl([vlib.eval_line('local r = (%s); if std.isFunction(r) then 1 else r' % c, max_stack=300) for c in chunk],
+                         timeout=90, mem_limit=4 * 1024 ** 3)
+        for c, a in zip(chunk, outs):
+            rep.count('c10inf:' + c, True)
+            if 'rc=timeout' in a:
+                rep.bump('inf:timeout')
+                rep.violation('c10inf:' + c, 'endless structure is not stopped by the frame limit (no answer within the time-out)',
+                              {'src': c, 'max_stack': 300, 'impl': a[:120]})
+            elif classify(a) == 'CRASH':
+                rep.bump('inf:crash')
+                rep.violation('c10inf:' + c, 'endless structure crashed the evaluator: ' + a[:120], {'src': c, 'max_stack': 300, 'impl': a[:200]})
+            else:
+                rep.bump('inf:' + classify(a))
     # native stack: deep evaluation with a huge limit must not abort
     big = 20000 if quick else 200000
     deep = [
